@@ -248,6 +248,8 @@ def c_case(case: dict, obs: dict) -> str:
 def model_covers(case: dict) -> bool:
     """Sim/Model.v has one error strategy per simulator; a handler that calls set_error_strategy during a
     run is driven on the implementation and judged by the oracle only."""
+    if case.get("freetime"):      # non-dyadic float times used verbatim: no exact Z representation
+        return False
     return not any(a[0] == "setstrat" for body in case["prog"] for a in body)
 
 
